@@ -13,6 +13,7 @@ package engines
 
 import (
 	"bytes"
+	"context"
 	"crypto/aes"
 	"crypto/cipher"
 	"crypto/ecdh"
@@ -102,7 +103,8 @@ type nrWorld struct {
 	curPath   string
 	curEncBy  int
 	curLookup []int
-	dirty     bool // the last submit reported something
+	dirty     bool            // the last submit reported something
+	callCtx   context.Context // context of the next rotation call when it is not the world's
 }
 
 func nrKeyOf(n *world.Node) nrKey {
@@ -310,7 +312,11 @@ func (w *nrWorld) submit(step string, req *types.RotateNodeCredentialsRequest, n
 		callOpts = w.s.Opts(nodeenrollment.WithState(w.uniqueState("callers-own")))
 		r.Count("rotation_calls_carrying_a_state_option", 1)
 	}
-	if p, st := engine.Guard(func() { resp, err = rotation.RotateNodeCredentials(w.s.Ctx, w.s.Store, req, callOpts...) }); p != nil {
+	cctx := w.s.Ctx
+	if w.callCtx != nil {
+		cctx = w.callCtx
+	}
+	if p, st := engine.Guard(func() { resp, err = rotation.RotateNodeCredentials(cctx, w.s.Store, req, callOpts...) }); p != nil {
 		viol("panic:"+engine.LibraryFrame(st), fmt.Sprintf("RotateNodeCredentials panicked (%s, %s): %v", step, reason, p))
 		return false
 	}
@@ -1059,14 +1065,28 @@ func runNRCase(c *engine.Ctx, nc nrCase) {
 		// stored record, or an Encrypt while the new record is sealed): it may be honoured or refused, and a
 		// refusal leaves storage as it was - after which the node simply tries again
 		k := 1 + (pick/2)%4
-		if (pick/8)%2 == 0 {
+		var cancel context.CancelFunc
+		switch (pick / 8) % 3 {
+		case 0:
 			fw.Arm(0, k)
-		} else {
+		case 1:
 			fw.Arm(k, 0)
+		default:
+			// the caller's context ends while the key service seals the new record (a request that timed out)
+			w.callCtx, cancel = context.WithCancel(w.s.Ctx)
+			fw.OnEncrypt(1+k%2, cancel)
+			r.Count("honest_rotations_attempted_with_the_context_ending_during_a_wrapper_call", 1)
 		}
+		defer func() {
+			if cancel != nil {
+				cancel()
+			}
+		}()
 		early := w.submit("attempt-under-wrapper-failure", proto.Clone(req).(*types.RotateNodeCredentialsRequest), newNode, cands, "either", "honest-while-a-storage-wrapper-call-fails")
 		n, _, _ := fw.Delivered()
 		fw.Arm(0, 0)
+		fw.OnEncrypt(0, nil)
+		w.callCtx = nil
 		if n > 0 {
 			r.Count("honest_rotations_attempted_with_a_failing_storage_wrapper_call", 1)
 		}
